@@ -208,7 +208,8 @@ def opSdepth (j : Json) : R Json := do
   let w ← getBool (← fld j "w")
   pure (listJ ratJ (sdepthCol vt H Hc C w))
 
-def floatJ (x : Float) : Json := .str (toString x)
+/-- a float travels as its IEEE-754 bit pattern (exact) -/
+def floatJ (x : Float) : Json := .str (toString x.toBits.toNat)
 
 def getFloat (j : Json) : R Float := do
   let q ← getRat j
@@ -294,6 +295,51 @@ def opBilinInv (j : Json) : R Json := do
         | none => .str "IndexError")
     | _ => .null) pts)
 
+def getRomsFile (j : Json) : R RomsFile := do
+  pure { h := ← getF2 (← fld j "h"), mask := ← getF2 (← fld j "mask"), dx := ← getF2 (← fld j "dx"),
+         hc := ← getRat (← fld j "hc"), CsR := ← getList getRat (← fld j "Cs_r"),
+         vtransform := ← getNat (← fld j "vtransform") }
+
+def getSub (j : Json) : R (Option (Int × Int × Int × Int)) :=
+  match fldOpt j "subgrid" with
+  | some s => do
+    let l ← getList getInt s
+    match l with
+    | [a, b, c, d] => pure (some (a, b, c, d))
+    | _ => throw "subgrid = [i0,i1,j0,j1]"
+  | none => pure none
+
+/-- whole-file arrays + subgrid → what a particle feels (C02) -/
+def opRomsSample (j : Json) : R Json := do
+  let f ← getRomsFile (← fld j "file")
+  let sub ← getSub j
+  let rawU ← getF3 (← fld j "U")
+  let rawV ← getF3 (← fld j "V")
+  let rawS ← match fldOpt j "S" with | some s => do pure (some (← getF3 s)) | none => pure none
+  let scale ← match fldOpt j "scale" with | some s => do pure (some (← getRat s)) | none => pure none
+  let sign ← getRat (← fld j "sign")
+  let pts ← getList (getList getRat) (← fld j "points")   -- [x0, y0, Z, x, y]
+  match mkGrid f sub with
+  | none => pure (errJ .exit1)
+  | some g =>
+    let U := windowU g rawU scale
+    let V := windowV g rawV scale
+    let S := rawS.map (windowRho g)
+    let res := pts.map fun p =>
+      match p with
+      | [x0, y0, z, x, y] =>
+        Json.mkObj [
+          ("KA", match levelOf g x0 y0 z with | some (K, A) => Json.arr #[intJ K, ratJ A] | none => .str "oob"),
+          ("uv", match sampleVel g U V sign x0 y0 z x y with | some (u, v) => Json.arr #[ratJ u, ratJ v] | none => .str "oob"),
+          ("s", match S with
+                | some F => (match sampleScalar g F x0 y0 z with | some v => ratJ v | none => .str "oob")
+                | none => .null),
+          ("metric", optJ ratJ (g.metric x0 y0)), ("depth", optJ ratJ (g.depth x0 y0)),
+          ("atsea", match g.atsea x0 y0 with | some b => .bool b | none => .null),
+          ("ingrid", .bool (g.ingrid x0 y0))]
+      | _ => .null
+    pure (Json.mkObj [("limits", listJ intJ [g.i0, g.i1, g.j0, g.j1]), ("points", .arr res.toArray)])
+
 /-! ### C01/C09/C11/C15: tracker -/
 
 def getGridM (j : Json) : R GridM := do
@@ -332,7 +378,7 @@ def handlers : List (String × (Json → R Json)) :=
   [("tk", opTk), ("period", opPeriod), ("state", opState), ("outrun", opOutRun), ("genname", opGenName),
    ("forcing", opForcing), ("z2s", opZ2s), ("sdepth", opSdepth), ("sstretch", opSstretch),
    ("sample", opSample), ("grid", opGrid), ("sample2d", opSample2D), ("bilininv", opBilinInv),
-   ("tracker", opTracker)]
+   ("tracker", opTracker), ("roms_sample", opRomsSample)]
 
 def handle (line : String) : String :=
   match Json.parse line with
